@@ -630,17 +630,36 @@ def _all_nodes(n):
 _CTL = {"choices": None, "snap_at": None}
 
 
+class _RunTimeout(BaseException):
+    """a run of the real scheduler did not come back (harness backstop)"""
+
+
 def _run(node, snap_at=None):
     """run; when the case works with controllable executors: under a fresh scheduler with the case's choice list"""
     from . import execsim
     from . import nodes_c07 as N
 
     if _CTL["choices"] is None:
+        # backstop (not a verdict): a hand-wired loop that a shrinking step has robbed of its exit would spin forever
+        import signal
+        import threading
+
+        guard = threading.current_thread() is threading.main_thread() and hasattr(signal, "SIGALRM")
+        if guard:
+            def _alarm(*_a):
+                raise _RunTimeout()
+
+            old = signal.signal(signal.SIGALRM, _alarm)
+            signal.alarm(25)
         try:
             node.run()
             return "ok"
         except BaseException as e:  # noqa: BLE001
             return type(e).__name__
+        finally:
+            if guard:
+                signal.alarm(0)
+                signal.signal(signal.SIGALRM, old)
     sched = N.SCHED[0]
     sched.choices = list(_CTL["choices"])
     sched.snap_at = snap_at
@@ -1845,6 +1864,8 @@ def shrink_candidates(case):
 
     for trail in specs(root):
         sp = at(root, trail)["spec"]
+        if any(c["kind"] == "if" for c in sp["children"]):
+            continue  # a while-loop: every wire is part of its exit condition
         for j in range(len(sp.get("data", []))):
             c = copy.deepcopy(case)
             at(c["root"], trail)["spec"]["data"].pop(j)
